@@ -12,6 +12,16 @@ TRUSTED = ["std::io::Read is modelled by BufWin.rd_read (a schedule of Data n / 
            "by the harness' SchedReader with the same schedule"]
 ASSUMPTIONS = ["usize/depth arithmetic is unbounded in the model (inputs are far below 2^31 nested opens / 2^64 bytes)"]
 
+# >>> a_c08 (wave 4)
+RULE += ("; wave 4 (props/C08_more.py): all 65536 lexeme ids in one case, python reference lexer, the `_refuted` witnesses (reserved "
+         "id, strings of 2^16+k bytes, zero-length buffer) asserted on the code, strings of 1000..65535 bytes, Lexer::remainder and "
+         "next_*/peek_* vs read_* at every point incl. a stray tail, readers built with new / buffer_len / buffer / a buffer recycled "
+         "through into_parts, capacities that hold the largest token but not the unlexable tail, call mixes run through failing "
+         "calls (extracted BinOps), Token::write into a bounded writer, error accessors")
+CLAIM_WAVE4 = ("Also proved (Props/C08_more.v, C08_ops.v): reader = lexer under the literal hypothesis max_token <= cap (BufferFull allowed "
+               "where the lexer errs), from_slice reader = lexer unconditionally, read/read_bytes per call and arbitrary call mixes, "
+               "and the Lexer cursor laws (position/remainder invariant kept by every method, next vs read, peek, id-then-payload).")
+# <<< a_c08
 PROFILES = ["release", "debug"]
 
 OPEN, CLOSE, EQUAL, U32, U64, I32, BOOL, QUOTED, UNQUOTED, F32, F64, RGB, I64 = (
@@ -591,6 +601,10 @@ def check_ops_equal(got, ref):
 
 def run(ctx):
     run_binary(ctx)
+    # >>> a_c08 (wave 4): clauses audit/C08.md found uncovered (props/C08_more.py)
+    from props import C08_more
+    C08_more.run_more(ctx)
+    # <<< a_c08
 
 
 def search(ctx):
